@@ -95,7 +95,14 @@ Proof.
     + vm_compute. auto.
     + vm_compute. auto 100.
 Qed.
-(* the partial statement that holds is C13_task_manager_drf (no record raises an error) *)
+(* the partial statement that holds is C13_task_manager_drf (no record raises an error); with
+   hooks/fix_haserror_lock.patch (HasError reads the slot under grTaskMutex) the full statement holds: *)
+Theorem C13_task_manager_locked_drf : forall cap pre post body epi fails len n, 1 <= n ->
+  record_local body -> epilogue_local body epi ->
+  (forall k a, In a (body k) -> avoids_tm a) -> (forall i a, In a (epi i) -> avoids_tm a) ->
+  race_free cap (tm_exec_with hl_locked pre post body epi fails len n).
+Proof. exact tm_drf_locked. Qed.
+Print Assumptions C13_task_manager_locked_drf.
 
 (* ---- the syntactic discipline on the extracted fact base ---------------------------------------- *)
 Theorem C13_discipline_sound : forall s, site_ok s = true ->
@@ -104,9 +111,14 @@ Theorem C13_discipline_sound : forall s, site_ok s = true ->
 Proof. exact discipline_sound. Qed.
 Print Assumptions C13_discipline_sound.
 
+Theorem C13_discipline_sound_locked : forall s, site_ok s = true ->
+  forall cap pre post fails len n, 1 <= n ->
+  race_free cap (site_exec_with hl_locked s pre post fails len n).
+Proof. intros s H cap pre post fails len n Hn. apply discipline_sound_gen; auto. right. cbn. auto. Qed.
+
 (* every site of the fact base is covered: by the discipline, by a hand summary, or it is a method
    of the task manager / the post-Wait side of a go statement (finite check) *)
-Theorem C13_expected_sites_classified : forallb classified expected_sites = true.
+Theorem C13_expected_sites_classified : forallb classified (expected_sites ++ expected_alternatives) = true.
 Proof. vm_compute. reflexivity. Qed.
 
 Theorem C13_sites_drf : forall s, In s expected_sites ->
@@ -115,7 +127,8 @@ Theorem C13_sites_drf : forall s, In s expected_sites ->
   forall cap pre post len n, 1 <= n -> race_free cap (site_exec s pre post (fun _ => false) len n).
 Proof.
   intros s Hin Hk Hex cap pre post len n Hn. apply discipline_sound; auto.
-  pose proof C13_expected_sites_classified as H. rewrite forallb_forall in H. specialize (H s Hin).
+  pose proof C13_expected_sites_classified as H. rewrite forallb_forall in H.
+  specialize (H s (in_or_app _ _ s (or_introl Hin))).
   unfold classified in H. rewrite Hex in H. cbn [orb] in H.
   destruct (String.eqb (s_kind s) "method") eqn:E1.
   { apply String.eqb_eq in E1. rewrite E1 in Hk. discriminate. }
@@ -193,25 +206,18 @@ Theorem site_lateral_join_drf : forall cap pre post len n, 1 <= n ->
   race_free cap (tm_exec pre post lateral_body (fun _ => []) (fun _ => false) len n).
 Proof. exact site_lateral_drf. Qed.
 
-(* ---- F-C13-4: the field-index cache of outer records, shared by the goroutines of an inner query -- *)
-Definition outer_cache_race_free : Prop :=
-  forall cap pre post misses len n, 1 <= n ->
-    race_free cap (tm_exec pre post (outer_cache_body misses) (fun _ => []) (fun _ => false) len n).
-Theorem C13_outer_cache_race : forall cap pre post misses len n i j k kj,
+(* ---- F-C13-4 (repaired in /repo by d44f076): the field-index cache of outer records ---------------- *)
+(* the code now gives every goroutine its own cache for the outer records: race free whatever misses *)
+Theorem site_outer_cache_per_goroutine_drf : forall cap pre post misses len n,
+  race_free cap (fj_exec pre post (outer_cache_workers misses len n)).
+Proof. exact site_outer_cache_drf. Qed.
+Print Assumptions site_outer_cache_per_goroutine_drf.
+(* why the repair was needed: with ONE cache shared by the goroutines (the code before d44f076) a
+   goroutine that does not find the outer field races with every other one *)
+Theorem C13_shared_outer_cache_race : forall cap pre post misses len n i j k kj,
   i <> j -> i < n -> j < n -> In k (range len n i) -> In kj (range len n j) -> misses k = true ->
   race cap (tm_exec pre post (outer_cache_body misses) (fun _ => []) (fun _ => false) len n).
 Proof. exact outer_cache_race. Qed.
-Theorem C13_outer_cache_race_refuted : ~ outer_cache_race_free.
-Proof.
-  intros H. apply (H no_cap [] [] (fun k => Nat.eqb k 0) 160 2 (le_S _ _ (le_n 1))).
-  apply (outer_cache_race no_cap [] [] _ 160 2 0 1 0 80); auto.
-  - vm_compute. auto.
-  - vm_compute. auto 100.
-Qed.
-Print Assumptions C13_outer_cache_race_refuted.
-Theorem C13_outer_cache_partial : forall cap pre post len n, 1 <= n ->
-  race_free cap (tm_exec pre post (outer_cache_body (fun _ => false)) (fun _ => []) (fun _ => false) len n).
-Proof. exact outer_cache_warm_drf. Qed.
 
 (* ---- F-C13-2: the loaders ---------------------------------------------------------------------------- *)
 Definition loader_race_free : Prop := forall m fails, race_free loader_cap (loader_exec true m fails).
@@ -222,9 +228,21 @@ Print Assumptions C13_loader_pos_race_refuted.
 Theorem C13_loader_partial : forall cap m, race_free cap (loader_exec false m false).
 Proof. exact site_loader_drf_except_pos. Qed.
 Print Assumptions C13_loader_partial.
+(* scaled-down instances (buffer and prepared capacity 2 instead of 300), decided by computing the
+   happens-before relation: the code as it stands races, the repaired order of the tests
+   (hooks/fix_loader_pos_read_after_handover.patch) does not, and the error slot is ordered by close *)
+Example C13_loader_small_current_races : race small_cap (loader_exec_gen EveryRow 2 4 false).
+Proof. exact loader_small_current_races. Qed.
+Example C13_loader_small_fixed_race_free : race_free small_cap (loader_exec_gen AtCap 2 4 false).
+Proof. exact loader_small_fixed_race_free. Qed.
+Example C13_loader_small_error_path_race_free : race_free small_cap (loader_exec_gen AtCap 2 3 true).
+Proof. exact loader_small_error_path_race_free. Qed.
 
 (* ---- F-C13-3: the signal goroutine -------------------------------------------------------------------- *)
 Definition signal_race_free : Prop := race_free signal_cap signal_exec.
 Theorem C13_signal_race_refuted : ~ signal_race_free.
 Proof. intros H. exact (H signal_race). Qed.
 Print Assumptions C13_signal_race_refuted.
+(* with hooks/fix_signal_received_mutex.patch *)
+Theorem C13_signal_fixed_race_free : race_free signal_cap signal_exec_fixed.
+Proof. exact signal_fixed_race_free. Qed.
